@@ -1,0 +1,54 @@
+//! Simulation seam for deterministic simulation testing.
+//!
+//! Compiled only with `--cfg actix_net_verif`; without that flag none of this exists. With the
+//! flag but nothing installed every hook is inert.
+
+use std::sync::{Arc, RwLock};
+
+/// Instrumentation points reported to the installed [`Hooks`]. `usize` payloads are arbiter ids.
+#[derive(Debug, Clone, Copy, PartialEq, Eq)]
+pub enum Point {
+    /// `Arbiter::with_tokio_rt` is about to spawn the arbiter's thread (creator thread).
+    Creating(usize),
+    /// First statement on the new arbiter thread.
+    ThreadStart(usize),
+    /// The arbiter thread is about to send `RegisterArbiter` to its system.
+    BeforeRegister(usize),
+    /// The arbiter thread has told its creator that it is ready.
+    ReadySent(usize),
+    /// The creator is about to wait for the arbiter thread's ready message.
+    WaitReady(usize),
+    /// The arbiter's event loop has ended; it is about to send `DeregisterArbiter`.
+    BeforeDeregister(usize),
+    /// Last statement on the arbiter thread.
+    ThreadEnd(usize),
+    /// The arbiter's event loop took one command off its channel.
+    RunnerItem,
+    /// The system controller took one command off its channel.
+    ControllerItem,
+}
+
+/// Implemented by the simulator.
+pub trait Hooks: Send + Sync {
+    /// An instrumentation point was reached on the calling thread.
+    fn point(&self, point: Point);
+}
+
+static HOOKS: RwLock<Option<Arc<dyn Hooks>>> = RwLock::new(None);
+
+/// Install the simulator's hooks (process-wide: arbiters are threads).
+pub fn install(hooks: Arc<dyn Hooks>) {
+    *HOOKS.write().unwrap() = Some(hooks);
+}
+
+/// Remove the hooks.
+pub fn uninstall() {
+    *HOOKS.write().unwrap() = None;
+}
+
+pub(crate) fn point(point: Point) {
+    let hooks = HOOKS.read().unwrap().clone();
+    if let Some(hooks) = hooks {
+        hooks.point(point);
+    }
+}
